@@ -678,6 +678,15 @@ def _partition(E, ci, it, f):
     return Agg('tuple', 0, [VecV(a, 'Vec'), VecV(b, 'Vec')])
 
 
+def _try_type(ci):
+    """the Try type R of try_fold::<B, F, R> / try_for_each::<F, R>"""
+    for t in reversed(ci.targs):
+        tl = type_last(t)
+        if tl in ('Option', 'Result', 'ControlFlow'):
+            return tl
+    raise ModelGap('try_fold: cannot determine the Try type from ' + ci.raw)
+
+
 @model('Iterator::try_fold')
 def _try_fold(E, ci, it, init, f):
     acc = init
@@ -687,7 +696,7 @@ def _try_fold(E, ci, it, init, f):
         if r.variant != good:
             return r
         acc = r.fields[0]
-    tl = type_last(ci.targs[1]) if len(ci.targs) > 1 else 'Result'
+    tl = _try_type(ci)
     return some(acc) if tl == 'Option' else ok(acc)
 
 
@@ -698,7 +707,7 @@ def _try_for_each(E, ci, it, f):
         good = 1 if r.ty == 'Option' else 0
         if r.variant != good:
             return r
-    tl = type_last(ci.targs[1]) if len(ci.targs) > 1 else 'Result'
+    tl = _try_type(ci)
     return some(UNIT) if tl == 'Option' else ok(UNIT)
 
 
@@ -729,3 +738,57 @@ def _iter_repeat(E, ci, x):
             from .models_core import clone_val
             return some(clone_val(E_, x))
     return Rep()
+
+
+@model('Iterator::scan')
+def _scan(E, ci, it, init, f):
+    inner = _it(E, it)
+    cell = [init]
+
+    class Scan(Iter):
+        def __init__(self_):
+            self_.done = False
+
+        def next(self_, E_):
+            if self_.done:
+                return none()
+            x = inner.next(E_)
+            if not x.variant:
+                return x
+            r = E_.call_value(f, [Ref(cell, 0), x.fields[0]])
+            if not r.variant:
+                self_.done = True
+            return r
+    return Scan()
+
+
+@model('array::map')
+def _array_map(E, ci, a, f):
+    return Agg('array', 0, [E.call_value(f, [x]) for x in deref(a).fields])
+
+
+@model('array::iter', 'array::iter_mut')
+def _array_iter(E, ci, a):
+    v = deref(a)
+    return ListIter([Ref(v.fields, i) for i in range(len(v.fields))])
+
+
+@model('array::as_slice', 'array::as_mut_slice')
+def _array_as_slice(E, ci, a):
+    v = deref(a)
+    return Slice(v.fields, 0, len(v.fields), 'slice')
+
+
+@model('Iterator::map_while')
+def _map_while2(E, ci, it, f):
+    return Adapter('map_while', _it(E, it), f)
+
+
+@model('Iterator::cycle')
+def _cycle(E, ci, it):
+    raise ModelGap('Iterator::cycle')
+
+
+@model('Iterator::rev')
+def _rev_generic(E, ci, it):
+    return Adapter('rev', _it(E, it))
